@@ -137,7 +137,7 @@ def cli_sample(v, which, cli_san, n, rnd, corpus):
         if os.path.exists(outp):
             os.unlink(outp)
         try:
-            r = subprocess.run([cli_san, src, "-o", outp], cwd=d, env=env, stdout=subprocess.PIPE, stderr=subprocess.PIPE, timeout=120)
+            r = subprocess.run([cli_san, src, "-o", outp], cwd=d, env=env, stdout=subprocess.PIPE, stderr=subprocess.PIPE, timeout=30)
         except subprocess.TimeoutExpired:
             v.violation("cli:hang", {"input_hex": data.hex()})
             continue
@@ -164,13 +164,13 @@ def memcheck_worker(job):
         open(src, "wb").write(data)
         try:
             r = subprocess.run(["valgrind", "-q", "--error-exitcode=77", tool, src, "-o", os.path.join(d, "o.bin")], cwd=d,
-                               stdout=subprocess.PIPE, stderr=subprocess.PIPE, timeout=900)
+                               stdout=subprocess.PIPE, stderr=subprocess.PIPE, timeout=150)
             n += 1
             if r.returncode == 77 or b"ninitialised" in r.stderr or b"Invalid read" in r.stderr or b"Invalid write" in r.stderr:
                 first = [l for l in r.stderr.decode("latin-1").splitlines() if "==" in l][:8]
                 bad.append(("memcheck", {"class": cls, "input_hex": data.hex(), "report": first}))
         except subprocess.TimeoutExpired:
-            pass
+            bad.append(("memcheck:hang", {"class": cls, "input_hex": data.hex()}))
         shutil.rmtree(d, ignore_errors=True)
     return n, bad
 
@@ -194,3 +194,79 @@ def confirm_timeouts(v, which, exe, datas):
         except subprocess.TimeoutExpired:
             v.violation("hang", {"input_hex": data.hex()})
         shutil.rmtree(d, ignore_errors=True)
+
+
+def libfuzzer_stage(v, which, fz_exe, san_exe, corpus, seconds):
+    """Coverage-guided stage (thorough tier): libFuzzer in fork mode; every artifact it leaves is re-run alone
+    in the sanitizer harness, which is the only thing believed."""
+    d = common.scratch("libfuzzer")
+    cdir = os.path.join(d, "corpus")
+    adir = os.path.join(d, "art")
+    os.makedirs(cdir)
+    os.makedirs(adir)
+    for i, text in enumerate(corpus[:400]):
+        open(os.path.join(cdir, "c%04d" % i), "wb").write(text.encode("latin-1")[:4096])
+    toks = bytegen.X_TOKENS if which == "x" else bytegen.ASM_TOKENS
+    with open(os.path.join(d, "dict"), "w") as f:
+        for t in toks:
+            f.write('"%s"\n' % "".join("\\x%02x" % b for b in t.encode("latin-1")))
+    env = dict(os.environ)
+    env["ASAN_OPTIONS"] = "detect_leaks=0:quarantine_size_mb=8:allocator_may_return_null=1"
+    cmd = [fz_exe, cdir, "-fork=%d" % common.NCPU, "-ignore_crashes=1", "-ignore_timeouts=1", "-ignore_ooms=1", "-max_total_time=%d" % seconds,
+           "-max_len=4096", "-timeout=25", "-rss_limit_mb=3000", "-dict=" + os.path.join(d, "dict"), "-artifact_prefix=" + adir + "/"]
+    try:
+        p = subprocess.run(cmd, cwd=d, env=env, stdout=subprocess.PIPE, stderr=subprocess.PIPE, timeout=seconds + 900)
+        log = p.stderr.decode("latin-1")
+    except subprocess.TimeoutExpired as e:
+        log = (e.stderr or b"").decode("latin-1")
+        v.inconclusive.append("libFuzzer stage did not stop in time")
+    last = [l for l in log.splitlines() if " cov: " in l and l.startswith("#")]
+    if last:
+        m = re.match(r"#(\d+): cov: (\d+) ft: (\d+) corp: (\d+)", last[-1])
+        if m:
+            v.cov["libfuzzer_executions"] = int(m.group(1))
+            v.cov["libfuzzer_edge_coverage"] = int(m.group(2))
+            v.cov["libfuzzer_features"] = int(m.group(3))
+            v.cov["libfuzzer_corpus"] = int(m.group(4))
+            v.cov["evaluations"] += int(m.group(1))
+    arts = sorted(os.listdir(adir))
+    v.cov["libfuzzer_artifacts"] = len(arts)
+    cases = []
+    for i, a in enumerate(arts[:2000]):
+        data = open(os.path.join(adir, a), "rb").read()[:4096]
+        f = {"src": data}
+        if which == "x":
+            f["want"] = "noexec"
+        cases.append((i, f))
+    if cases:
+        res = common.run_harness(san_exe, cases, args=["cases"], tag="fzart")
+        for i, f in cases:
+            oc, key, detail = classify(which, res[str(i)])
+            if oc == "violation":
+                v.violation(key, {"class": "libfuzzer-artifact", "input_hex": f["src"].hex(), "report": detail})
+            elif oc == "timeout":
+                v.count("libfuzzer_artifact_timeouts")
+            else:
+                v.count("libfuzzer_artifacts_not_reproduced")
+    shutil.rmtree(d, ignore_errors=True)
+
+
+def fixed_cases(v, which, exe, items):
+    """Deterministic case list (e.g. the complete kind x use matrix): every case is classified like a generated one."""
+    cases = []
+    for i, (cls, data) in enumerate(items):
+        f = {"src": data[:4096]}
+        if which == "x":
+            f["want"] = "noexec"
+        cases.append((i, f))
+    res = common.run_harness(exe, cases, args=["cases"], tag="fzfix")
+    for i, (cls, data) in enumerate(items):
+        oc, key, detail = classify(which, res[str(i)])
+        v.cov["evaluations"] += 1
+        v.hist("cases_by_generator_class", cls + "(enumerated)", 1)
+        if oc == "violation":
+            v.violation(key, {"class": cls, "input_latin1": data.decode("latin-1")[:4096], "input_hex": data.hex()[:8192], "report": detail})
+        elif oc == "accepted":
+            v.count("accepted")
+        elif oc == "rejected":
+            v.count("rejected")
